@@ -430,10 +430,24 @@ class ElemSources:
             return self.sources(e.args[0], depth - 1)
         if isinstance(e, ast.BinOp) and isinstance(e.op, ast.Add):
             return self.sources(e.left, depth - 1) + self.sources(e.right, depth - 1)
-        if isinstance(e, ast.Call) and isinstance(e.func, ast.Name) and e.func.id == "filter" and len(e.args) == 2 and not e.keywords:
-            # filter(F, XS) == (x for x in XS if F(x));  filter(None, XS) == (x for x in XS if x)
+        if isinstance(e, ast.Call) and (last_attr(e.func) or "") in ("filter", "filterfalse") and isinstance(e.func, (ast.Name, ast.Attribute)) and len(e.args) == 2 and not e.keywords:
+            # filter(F, XS) == (x for x in XS if F(x));  filter(None, XS) == (x for x in XS if x);  itertools.filterfalse(F, XS) keeps the others
             pred, xs = e.args
             var = "elem__f"
+            if (last_attr(e.func) or "") == "filterfalse":
+                if isinstance(pred, ast.Attribute) and isinstance(pred.value, ast.Name) and pred.value.id in ("Path", "PurePath"):
+                    # unbound method `Path.is_symlink` applied to the element
+                    t_ = ast.Call(func=ast.Attribute(value=ast.Name(id=var, ctx=ast.Load()), attr=pred.attr, ctx=ast.Load()), args=[], keywords=[])
+                elif isinstance(pred, ast.Lambda) and len(pred.args.args) == 1:
+                    t_ = subst(pred.body, {pred.args.args[0].arg: ast.Name(id=var, ctx=ast.Load())})
+                else:
+                    t_ = expand_predicate(self.ctx, self.fn, ast.Call(func=pred, args=[ast.Name(id=var, ctx=ast.Load())], keywords=[]))
+                here = self._norm(cond_facts(t_, False), var)
+                return [(leaf, f | here) for leaf, f in self.sources(xs, depth - 1)]
+            if isinstance(pred, ast.Attribute) and isinstance(pred.value, ast.Name) and pred.value.id in ("Path", "PurePath"):
+                t_ = ast.Call(func=ast.Attribute(value=ast.Name(id=var, ctx=ast.Load()), attr=pred.attr, ctx=ast.Load()), args=[], keywords=[])
+                here = self._norm(cond_facts(t_, True), var)
+                return [(leaf, f | here) for leaf, f in self.sources(xs, depth - 1)]
             if isinstance(pred, ast.Constant) and pred.value is None:
                 test: ast.expr = ast.Name(id=var, ctx=ast.Load())
             elif isinstance(pred, ast.Lambda) and len(pred.args.args) == 1:
